@@ -36,8 +36,23 @@ def worker_init():
   common.tf_init()
 
 
+STOCH_ANSWERS = [0.0, 2.0 ** -24, 0.25, 0.5, 0.75, 1 - 2.0 ** -24]
+
+
 def enumerate_cases(tier, seed):
-  return fp.configs(6 if tier == "quick" else 8)
+  cases = fp.configs(6 if tier == "quick" else 8)
+  # the same formats with use_stochastic_rounding=True in the training phase, the random source owned by the
+  # harness (C08's interposer): the code-membership clauses must hold for EVERY draw, so each of the constant
+  # answer classes (including the end points 0 and 1-2^-24 of the generator's range) is executed
+  for cfg in fp.configs(4 if tier == "quick" else 5):
+    if cfg["cls"] in ("quantized_tanh", "quantized_sigmoid") and cfg["mode"] != "hard":
+      continue
+    if cfg.get("alpha") not in (None, 1.0) and cfg["cls"] in ("quantized_bits", "quantized_linear"):
+      continue
+    if cfg["cls"] in ("quantized_bits", "quantized_linear") and cfg["bits"] - int(bool(cfg["keep_negative"])) == 0:
+      continue
+    cases.append(dict(stoch=True, **cfg))
+  return cases
 
 
 def _tags(cfg, f):
@@ -56,7 +71,51 @@ def _tags(cfg, f):
   return ":".join(t)
 
 
+def run_stochastic(cfg, f, x, tags):
+  """Training phase, stochastic rounding, every constant answer class of the owned random source."""
+  tf = common.tf_init()
+  from mc import choices  # pylint: disable=import-outside-toplevel
+  from props import c08  # pylint: disable=import-outside-toplevel
+  viol = []
+
+  def bad(clause, what, **detail):
+    if len(viol) < 6 and not any(v["key"].endswith(clause + ":stochastic") for v in viol):
+      viol.append({"key": "%s:%s:stochastic" % (cfg["cls"], clause), "what": "%s %s (stochastic rounding, training): %s" % (
+          cfg["cls"], clause, what), "detail": dict(cfg=dict(cfg, stoch=True), **detail)})
+  evals = 0
+  digests = []
+  allv = set()
+  for u in STOCH_ANSWERS:
+    q = fp.make(cfg, use_stochastic_rounding=True)
+    ch = choices.Chooser([])
+
+    def answer(idx, k, shape, minval, maxval, u=u):
+      return np.full(shape, u, dtype=np.float32)
+    y, rng = c08.execute(tf, q, x, 1, ch, answer)
+    y64 = y.astype(np.float64).reshape(-1)
+    digests.append(common.digest(y))
+    evals += int(y64.size)
+    c = y64 / f["step"]
+    if (c != np.round(c)).any():
+      i = int(np.flatnonzero(c != np.round(c))[0])
+      bad("multiple-of-step", "draw %r: output %r at x=%r is not a multiple of step %r" % (u, float(y64[i]), float(x[i]), f["step"]))
+    elif ((c < f["lo"]) | (c > f["hi"])).any():
+      i = int(np.flatnonzero((c < f["lo"]) | (c > f["hi"]))[0])
+      bad("code-range", "draw %r: code %r at x=%r outside [%d,%d]" % (u, float(c[i]), float(x[i]), f["lo"], f["hi"]))
+    qmin, qmax = float(np.min(fp.to_f(q.min()))), float(np.max(fp.to_f(q.max())))
+    if y64.min() < qmin or y64.max() > qmax:
+      bad("min()/max()", "draw %r: outputs [%r,%r] not enclosed by [%r,%r]" % (u, float(y64.min()), float(y64.max()), qmin, qmax))
+    allv.update(np.unique(y64).tolist())
+  if len(allv) > 2 ** cfg["bits"]:
+    bad("count", "%d distinct outputs over all draws > 2^%d" % (len(allv), cfg["bits"]))
+  common.reset_keras()
+  return {"evals": evals, "transitions": len(STOCH_ANSWERS), "nontrivial": int(len(allv) > 1),
+          "state": "stoch" + repr(sorted(cfg.items())), "digest": common.digest(*digests), "violations": viol, "traces": 0,
+          "sample": {"cfg": cfg, "stochastic": True, "draws": STOCH_ANSWERS}}
+
+
 def run_case(cfg):
+  cfg = dict(cfg)
   tf = common.tf_init()
   common.reset_keras()
   f = fp.fmt(cfg)
@@ -70,6 +129,9 @@ def run_case(cfg):
                    "what": "%s %s: %s" % (cfg["cls"], clause, what),
                    "detail": dict(cfg=cfg, **detail)})
 
+  stoch = cfg.pop("stoch", False) if "stoch" in cfg else False
+  if stoch:
+    return run_stochastic(cfg, f, x, tags)
   q = fp.make(cfg)
   views = common.rank_views(x)
   outs = [np.asarray(q(tf.constant(v)), dtype=np.float32).reshape(-1) for v in views]
